@@ -32,5 +32,24 @@ CHECKS = {
         "note": CODEC_NOTE + "strings.ToLower is an arbitrary function in the theorems (real one applied by the comparator); Go map and sort.Strings semantics modelled.",
         "technique": "Lean 4 proof (well-founded parser, loop invariants, mergeSort uniqueness) + model/code differential run (partly exhaustive) + regenerated expressions",
     },
+    "C01": {
+        "text": "Theorems over the frame model (both versions, gzip as an oracle with a stated soundness assumption): encoding errors for unknown types "
+                "and over-limit bodies, and (growing) the one-shot round trip composed from layout conformance (C02), the metadata round trip (C09) and "
+                "the oracle assumption. The model's bit-level expressions and constants are regenerated from the source; every Pack/UnpackBytes result of "
+                "the real code is compared with the model over all types x verify x metadata x boundary body lengths x thresholds, and the round-trip "
+                "relation itself is evaluated on the real code (one-shot and streaming decoders).",
+        "design_ref": "DESIGN.md section 7, C01",
+        "note": CODEC_NOTE + "compress/gzip is an oracle; DEFLATE/CRC are the standard library (trusted, checked per sample with the standard reader).",
+        "technique": "Lean 4 proof over a hand-written frame model + model/code differential run with gzip oracle values + regenerated expressions",
+    },
+    "C02": {
+        "text": "An independent arithmetic specification of the published layout (Spec.encode/Spec.decode, div/mod only) in Lean; theorems relating the "
+                "model of Pack/UnpackBytes to it (rejection of unknown type nibbles for all 256 first bytes; conformance theorems growing); the real "
+                "encoder is compared byte for byte with the Lean spec and with a second independent Go spec encoder, the real decoder field for field "
+                "on spec frames over all 16 nibbles x flags x reserve x extremes.",
+        "design_ref": "DESIGN.md section 7, C02",
+        "note": CODEC_NOTE + "The layout spec is transcribed from the property text.",
+        "technique": "Lean 4 proof against an independent layout spec + three-way differential run (Go code, Go spec encoder, Lean spec)",
+    },
 }
 NOT_CLAIMED = {}
